@@ -208,13 +208,23 @@ class Gen:
             t=b.add(ty='block', xs=self.stmts(self.child(sc), d-1, r.randint(1,3)))
             hasc=r.random()<0.7; hasf=(not hasc) or r.random()<0.6
             cname=(self.shadow(sc, 0.2) or self.fresh('e')) if hasc and r.random()<0.85 else ''
-            cb=0
+            cb=0; after=[]
             if hasc:
                 csc=self.child(sc)
                 if cname: self.bind(csc, cname, 'let')      # re-declaring the catch parameter in its block is an early error: it stays in 'own'
-                cb=b.add(ty='block', xs=self.stmts(csc, d-1, r.randint(1,2)))
+                pre=[]
+                outer=[n for n,k in sc['names'] if not n.startswith(('i','g'))]
+                if not cname and outer and getattr(self,'shadowing',True) and r.random()<0.6:
+                    # `catch { let x = ..; }` with an outer x: the catch block is a scope of its own even without a parameter
+                    nm=r.choice(outer)
+                    pre.append(b.add(ty='decl', kind='let', name=nm, a=self.lit()))
+                    pre.append(b.add(ty='log', a=b.add(ty='var', name=nm)))
+                    self.bind(csc, nm, 'let')
+                    after.append(b.add(ty='log', a=b.add(ty='var', name=nm)))
+                cb=b.add(ty='block', xs=pre+self.stmts(csc, d-1, r.randint(1,2)))
             fb=b.add(ty='block', xs=self.stmts(self.child(sc), d-1, r.randint(1,2))) if hasf else 0
-            return b.add(ty='try', a=t, b=cb, cname=cname, c=fb)
+            tr=b.add(ty='try', a=t, b=cb, cname=cname, c=fb)
+            return [tr]+after if after else tr
         if c=='funcdecl':
             name=self.fresh('f'); params=[self.fresh('p') for _ in range(r.choice([0,1,2]))]
             sh=self.shadow(sc)
